@@ -193,6 +193,11 @@ func init() {
 			}
 			c.Vars["leak_start"] = start
 			c.Vars["leak_end"] = int(f) + 1 + c.Rng.Intn(2)
+			if len(fit) == 0 {
+				// all forks are too early for a leak to begin before them (the first leak epoch is min+2): leak after them
+				c.Vars["no_fit"] = 1
+				c.Vars["leak_end"] = start + min + 4
+			}
 		},
 		Mode: func(c *Chain, e common.Epoch) string {
 			if int(e) >= c.Vars["leak_start"] && int(e) < c.Vars["leak_end"] {
@@ -209,7 +214,9 @@ func init() {
 					nf++
 				}
 			}
-			expect(nf >= 2, &out, "leak did not span a fork boundary (forks in leak: %d)", nf)
+			if c.Vars["no_fit"] == 0 {
+				expect(nf >= 2, &out, "leak did not span a fork boundary (forks in leak: %d)", nf)
+			}
 			return
 		},
 	})
